@@ -55,6 +55,14 @@ CLAIMS = {
             "kinds), filters, get_spec for every well-formed tree; the extracted cursor machine is run on the decoded committed files and "
             "must agree call-for-call with the library (tens of thousands of calls per run); legacy machine refuted.",
             "binary search is Rust's slice::binary_search_by transliterated by hand", "Coq theorems + exact model-vs-library correspondence", "6/C08, App. H"),
+    "C11": ("proof",
+            "Coq (CrashFacts/CrashCurrent): for the I/O order and the free-list publication rule the translator reads from the current "
+            "source, whichever call of a commit fails (applied, lost or torn), the disk holds exactly the pre or the post state with all "
+            "pages intact, and the shared free list the process keeps matches the header the next transaction reads; pinned behaviour "
+            "refuted; every write/fsync/fallocate of real commits is made to fail once (strace inject, LD_PRELOAD short-write shim) and "
+            "the continued history, check, reopen and decoded files must match one of the two reference timelines.",
+            "copy-on-write premise from the page-lifecycle contract (validated per commit); strace / shim are the fault injectors",
+            "Coq theorem over generated I/O order and publication rule + exhaustive single-fault injection", "6/C11"),
     "C12": ("proof",
             "Coq (FnvFacts, MetaFacts): FNV-1a step is injective, a single changed byte changes the checksum, so any single-byte damage in "
             "a hashed field / the checksum / the page-type byte invalidates the slot and open selects the other header; every stored field "
